@@ -244,3 +244,4 @@ V('C20-twin-if-raise', 'C20', [(KE, "        assert (\n            lhs == self.c
 
 # ---------------------------------------------------------------- C01 equality
 V('C01-custom-eq-ignores-plug', 'C01', [(RS, '#[derive(Debug, Eq, PartialEq, Clone)]\npub enum Pattern {', '#[derive(Debug, Eq, Clone)]\npub enum Pattern {'), (RS, 'impl Pattern {\n    fn e_fresh(&self, evar: Id) -> bool {', 'impl PartialEq for Pattern {\n    fn eq(&self, other: &Pattern) -> bool {\n        match (self, other) {\n            (Pattern::EVar(a), Pattern::EVar(b)) => a == b,\n            (Pattern::SVar(a), Pattern::SVar(b)) => a == b,\n            (Pattern::Symbol(a), Pattern::Symbol(b)) => a == b,\n            (Pattern::Implies { left: a, right: b }, Pattern::Implies { left: c, right: d }) => a == c && b == d,\n            (Pattern::App { left: a, right: b }, Pattern::App { left: c, right: d }) => a == c && b == d,\n            (Pattern::Exists { var: a, subpattern: b }, Pattern::Exists { var: c, subpattern: d }) => a == c && b == d,\n            (Pattern::Mu { var: a, subpattern: b }, Pattern::Mu { var: c, subpattern: d }) => a == c && b == d,\n            (Pattern::MetaVar { id: a, .. }, Pattern::MetaVar { id: b, .. }) => a == b,\n            (Pattern::ESubst { pattern: a, evar_id: b, .. }, Pattern::ESubst { pattern: c, evar_id: d, .. }) => a == c && b == d,\n            (Pattern::SSubst { pattern: a, svar_id: b, plug: e }, Pattern::SSubst { pattern: c, svar_id: d, plug: f }) => a == c && b == d && e == f,\n            _ => false,\n        }\n    }\n}\n\nimpl Pattern {\n    fn e_fresh(&self, evar: Id) -> bool {')], names='structural-equality')
+V('C12-metavar-eq-by-name', 'C12', [(PT, '    def metavars(self) -> set[int]:\n        return {self.name}\n', '    def metavars(self) -> set[int]:\n        return {self.name}\n\n    def __eq__(self, o: object) -> bool:\n        return isinstance(o, MetaVar) and o.name == self.name\n\n    def __hash__(self) -> int:\n        return hash(self.name)\n')], names='structural-equality')
